@@ -6,7 +6,7 @@
 From Coq Require Import List ZArith QArith.
 Import ListNotations.
 From Eudoxia Require Import Model.Types Model.Lifecycle Model.Container Model.Pool Model.Executor Model.Sched
-  Proofs.PriorityPoolFacts.
+  Model.Simulator Proofs.PriorityPoolFacts Proofs.PriorityPoolRunFacts.
 Close Scope Q_scope.
 Close Scope Z_scope.
 
@@ -102,3 +102,77 @@ Print Assumptions C16_shared_pool_order.
 (* non-vacuity *)
 Example C16_witness : forall C, pp_reach C init_sstate.
 Proof. intros. constructor. Qed.
+
+(* ---- run level (Proofs/PriorityPoolRunFacts.v): the simulator loop drives priority-pool (multi-operator
+   containers, positive pool sizes, arriving pipelines have at least one operator). [sf] is the state a run
+   has reached, normally or at the tick that raised; every state the loop passes through is the [sf] of the
+   run over a prefix of the arrival batches. In every such state the hypotheses of C16_no_internal_assertion
+   hold: a failed result still has an unfinished operator, no container is suspending or suspended (C16
+   never suspends), every pool's free CPU and free RAM are non-negative and reach zero together; hence the
+   scheduler's internal assertion cannot fire in the next round, whatever arrives. *)
+Theorem C16_no_internal_assertion_run : forall C np cpu ram arrivals sf logs oe,
+  cf_multi C = true -> (0 < cpu)%Z -> (0 < ram)%Q ->
+  (forall k, In k (concat arrivals) -> pd_order (pipe_of (cf_static C) k) <> []) ->
+  sim_run C APriorityPool 0%Z (init_sim C np cpu ram) arrivals = (sf, logs, oe) ->
+  let e := sm_exec sf in
+  (forall r, In r (sm_results sf) -> r_err r = true -> not_completed_ops (e_world e) (r_ops r) <> []) /\
+  (forall p, In p (e_pools e) -> p_suspending p = [] /\ p_suspended p = []) /\
+  (forall i, both_or_none (nth i (snapshot e) dummy_stat) /\
+             (0 <= ps_acpu (nth i (snapshot e) dummy_stat))%Z /\
+             (0 <= ps_aram (nth i (snapshot e) dummy_stat))%Q) /\
+  (forall newp, priority_pool_step C (sm_sched sf) e (sm_results sf) newp <> Err ESchedAssert).
+Proof. exact pp_run_snapshot. Qed.
+Print Assumptions C16_no_internal_assertion_run.
+
+(* one tick from a state satisfying the invariant [pp_inv np s] (pool ids 0..np-1; in every pool: nothing
+   suspending or suspended, active containers unfinished with positive sizes and an operator left, free CPU and
+   free RAM non-negative and zero together; results with positive sizes, failed ones still owning a FAILED
+   operator; queued jobs with operators and positive retry sizes): the invariant again, or an error raised
+   inside a container tick / by an ASSIGNED request on an operator that is not assignable *)
+Theorem C16_tick_invariant : forall C, cf_multi C = true -> forall np t s newp,
+  pp_inv np s -> (forall k, In k newp -> pd_order (pipe_of (cf_static C) k) <> []) ->
+  match sim_tick C APriorityPool t s newp with
+  | Ok (s', _) => pp_inv np s'
+  | Err er => SafetyFacts.inner_err er
+  end.
+Proof. exact pp_tick_step. Qed.
+Print Assumptions C16_tick_invariant.
+
+(* the closed loop (C08_priority_pool_runs_to_end): with well-formed static data the run never stops early, so
+   the invariant above holds after every tick of every such workload *)
+Theorem C16_runs_to_end : forall C l np cpu ram arrivals,
+  cf_static C = mk_static l -> ExecLifeFacts.dags_wf l ->
+  (forall op c, cf_script C op c <> []) -> cf_multi C = true ->
+  (0 < cpu)%Z -> (0 < ram)%Q ->
+  (forall k, In k (concat arrivals) -> pd_order (pipe_of (cf_static C) k) <> []) ->
+  NoDup (concat arrivals) ->
+  exists sf logs,
+    sim_run C APriorityPool 0%Z (init_sim C np cpu ram) arrivals = (sf, logs, None) /\
+    length logs = length arrivals.
+Proof. exact pp_runs_to_end. Qed.
+Print Assumptions C16_runs_to_end.
+
+(* non-vacuity at run level: a retry after an OOM kill really happens. One query pipeline whose operator needs
+   2 GB; the first container gets 1 CPU / 1 GB and is killed in tick 0, the retry gets 2 CPUs / 2 GB in tick 1
+   and completes; the run reaches its end *)
+Example C16_retry_after_oom_run :
+  let '(sf, logs, oe) := sim_run RunExamples.C1 APriorityPool 0%Z (init_sim RunExamples.C1 2 10%Z 10%Q)
+                                 [[0]; []; []; []] in
+  oe = None /\ sm_nfail sf = 1%Z /\ sm_nasg sf = 2%Z /\
+  map p_num_completed (e_pools (sm_exec sf)) = [1%Z; 0%Z] /\
+  map (fun lg => (map (fun a => (a_ops a, a_cpu a, a_ram a, a_pool a)) (tl_asgs lg),
+                  map (fun r => (r_ops r, r_err r)) (tl_results lg), tl_finished lg)) logs
+  = [([([0], 1%Z, 1%Q, 0%Z)], [([0], true)], []);
+     ([([0], 2%Z, 2%Q, 0%Z)], [([0], false)], [0]); ([], [], []); ([], [], [])].
+Proof. exact RunExamples.ex_retry_after_oom. Qed.
+
+(* the hypothesis on the pool sizes is needed: pools with RAM but no CPU, or CPUs but no RAM, are not
+   both-or-none and the internal assertion fires at the first arrival *)
+Example C16_degenerate_pool_refuted :
+  snd (sim_run RunExamples.C1 APriorityPool 0%Z (init_sim RunExamples.C1 2 0%Z 10%Q) [[0]; []; []])
+    = Some ESchedAssert /\
+  snd (sim_run RunExamples.C1 APriorityPool 0%Z (init_sim RunExamples.C1 2 10%Z 0%Q) [[0]; []; []])
+    = Some ESchedAssert /\
+  snd (sim_run RunExamples.C1 APriorityPool 0%Z (init_sim RunExamples.C1 2 10%Z (-(1))%Q) [[0]; []; []])
+    = Some EBadAssignArgs.
+Proof. exact RunExamples.degenerate_pool_refuted. Qed.
